@@ -249,7 +249,7 @@ fn injected_call(log: &strace::Log, fault: &Fault) -> Result<Option<u32>, String
 // ------------------------------------------------------------------------------------------------
 
 fn spec_text(s: &Spec) -> String {
-    format!("{} {} {}", TY_NAMES[(s.ty.min(NTY - 1)) as usize], if s.panic { "panic" } else { "return" }, DISP_NAMES[s.disp.min(4) as usize])
+    format!("{} {}{} {}", TY_NAMES[(s.ty.min(NTY - 1)) as usize], if s.panic { "panic" } else { "return" }, if s.spurious { " after a spurious wake-up on its exit futex" } else { "" }, DISP_NAMES[s.disp.min(4) as usize])
 }
 
 /// Outcome-independent part: crash / deadlock / infrastructure. Returns false when the reports must not be judged.
@@ -332,6 +332,11 @@ fn judge_c05(env: &Env, case: &Case, out: &Outcome, injected: Option<u32>, fails
                 continue;
             }
             let want_buf = expected_buf(s.tag, s.buflen as usize);
+            if s.spurious {
+                rep.class_if(sr.woke == 1, "spurious-wake-delivered-to-parked-joiner");
+                rep.class_if(sr.woke == 2, "spurious-wake-found-nobody-parked");
+                rep.class_if(sr.woke == 3, "inconclusive-exit-futex-address-unavailable");
+            }
             if s.joined() {
                 let (wh, wl) = expected_value(s.ty, s.tag);
                 match (sr.join_class, s.panic) {
@@ -742,10 +747,18 @@ fn spec_strategy(c06: bool) -> impl Strategy<Value = Spec> {
         delay_strategy(),
         prop_oneof![2 => Just(0u16), 3 => 1u16..64, 1 => 64u16..4096],
         any::<u64>(),
-        -40_000i64..200_000,
+        (-40_000i64..200_000, prop::bool::weighted(0.12), 200_000u32..1_500_000),
     )
-        .prop_map(|(ty, panic, disp, inline, cd, pd, buflen, tag, jitter)| {
-            let mut s = Spec { ty, panic, disp, inline, child_delay: cd, parent_delay: pd, buflen, tag, };
+        .prop_map(|(ty, panic, disp, inline, cd, pd, buflen, tag, (jitter, spurious, sp_delay))| {
+            let mut s = Spec { ty, panic, disp, inline, child_delay: cd, parent_delay: pd, buflen, tag, spurious: false };
+            if spurious && !panic && (disp == DISP_JOIN || disp == DISP_KEEP_END) {
+                // the thread sleeps first so that the joiner is parked when the spurious wake-up arrives
+                s.spurious = true;
+                s.child_delay = Delay::Sleep(sp_delay);
+                if disp == DISP_JOIN {
+                    s.parent_delay = Delay::None;
+                }
+            }
             if disp == DISP_DROP_FINISHING {
                 // "while finishing": the parent's delay equals the child's, plus or minus jitter; carried out at once
                 s.inline = true;
@@ -802,7 +815,7 @@ fn fault_case_strategy(builds: Vec<&'static str>) -> impl Strategy<Value = Case>
 }
 
 fn sp(ty: u8, panic: bool, disp: u8, inline: bool, cd: Delay, pd: Delay, buflen: u16, tag: u64) -> Spec {
-    Spec { ty, panic, disp, inline, child_delay: cd, parent_delay: pd, buflen, tag }
+    Spec { ty, panic, disp, inline, child_delay: cd, parent_delay: pd, buflen, tag, spurious: false }
 }
 
 /// The four fixed small batches of the fault enumeration.
@@ -872,6 +885,17 @@ fn builds_for(ctx: &Ctx) -> Vec<&'static str> {
 // entry
 // ------------------------------------------------------------------------------------------------
 
+/// One batch in which every thread delivers a spurious wake-up to its parked joiner and then runs on.
+fn spurious_batch() -> Batch {
+    let mut specs = Vec::new();
+    for (k, ty) in [2u8, 0, 8, 9, 5, 7].into_iter().enumerate() {
+        let mut s = sp(ty, false, DISP_JOIN, true, Delay::Sleep(400_000 + 150_000 * k as u32), Delay::None, 32, 0x5b00 + k as u64);
+        s.spurious = true;
+        specs.push(s);
+    }
+    Batch { specs }
+}
+
 pub fn run(ctx: &Ctx) {
     let c06 = ctx.prop == "C06";
     let env = Env {
@@ -887,6 +911,19 @@ pub fn run(ctx: &Ctx) {
     };
     let builds = builds_for(ctx);
     let max_b = if ctx.thorough() { 10 } else { 5 };
+    // a wait on the exit futex that returns without the thread having exited (spurious wake-up)
+    if let Some(case) = ctx.replay_case::<Case>("spurious") {
+        ctx.run_one("spurious", &case, || env.attempt(&case));
+    } else if !ctx.is_replay() {
+        for (k, build) in builds.iter().enumerate() {
+            if k as u32 % ctx.nworkers == ctx.worker {
+                let case = Case { build: build.to_string(), strace: false, fault: None, batches: vec![spurious_batch(), spurious_batch()] };
+                if !ctx.run_one("spurious", &case, || run_case(&env, &case)) {
+                    break;
+                }
+            }
+        }
+    }
     if c06 {
         // fixed cases: the complete (type x return|panic x disposition) matrix under strace, and the two minimal
         // histories in which a heap-owning result meets a dropped handle (one per outcome of the flag race)
